@@ -709,7 +709,7 @@ pub const MAX: IDate = IDate { year: 9999, month: 12, day: 31 };
         r.is_ok() <==> day <= dim(year as int, month as int),
     r.is_ok() ==> r.unwrap() == (IDate { year, month, day }),
 {
-        if day > 29 {
+        if day > 28 {
             let max_day = days_in_month(year, month);
             if day > max_day {
                 return Err(verif_err());
